@@ -105,8 +105,9 @@ CHECKS["C03"] = dict(
          "start, and all-handled as preconditions of the HStart action over API-level events; TLC enumerates every ordered "
          "pair of call variants (16 methods x send-waiting x {all fast, one slow, one holding node} handler patterns x "
          "release order; thorough adds triples) and each program is executed on the real library with send buffer 0 and 2 "
-         "(quick: 900 seeded programs per setting); TLC validates each recorded section against FifoTrace.tla. The "
-         "interleavings of sender/receiver/server loop themselves are explored at design level in Channel.tla.",
+         "(quick: 900 seeded programs per setting); scenario fifo-across-stream-break (send buffer 8, first of five async/"
+         "one-way calls held before SendMsg, server restarted) is validated by the same monitor; TLC validates each recorded "
+         "section against FifoTrace.tla. FifoPerConn/NoDoubleStart are checked exhaustively on Channel.tla.",
     ref="DESIGN.md 5 C03, 3.0 (Fifo), 3.2",
     note=PROG_NOTE,
     technique="TLA+ guarantee module (Fifo.tla) + TLC program enumeration; programs executed on real code; TLC trace validation")
@@ -116,7 +117,8 @@ CHECKS["C04"] = dict(
     text="Fifo.tla's HStart precondition 'no earlier handler of this connection is unreleased' with idempotent HRelease/"
          "HReturn; TLC enumerates programs over every release style (on entry, implicit on return, late, x3, from three "
          "helper goroutines, failing handler, never) x handler kind (unary, stream, one-way) x a second call on the same "
-         "or on another client connection; all 1568 programs (thorough adds triples) are executed with send buffer 0 and "
+         "or on another client connection, plus staged-release triples (A releases early, B holds, A releases again by "
+         "returning / explicitly / from goroutines, C must not start); all 1748 programs are executed with send buffer 0 and "
          "2; a second connection must complete while the first is held; a runtime fatal error of the driver process "
          "(e.g. unlock of unlocked mutex) is reported as violation.",
     ref="DESIGN.md 5 C04, 3.0 (Fifo), 3.2",
@@ -153,8 +155,9 @@ CHECKS["C10"] = dict(
     text="In Channel.tla the receiver's back-off timer is an ENVIRONMENT action, so NoStrandedCall says a reply on a "
          "re-created stream is received without the timer firing; checked exhaustively with one crash/restart at every "
          "point. Scenarios restart (back-off base 20 s, gRPC's own redial fired explicitly) and down-at-creation x 9 call "
-         "kinds require the probe call issued after the node is back to be answered before quiescence. (Metadata per "
-         "connection is covered by the repository's own tests and not re-checked here.)",
+         "kinds require the probe call issued after the node is back to be answered before quiescence; scenario metadata "
+         "(general + per-node metadata, node 1 crashes and reconnects, node 2 is down at creation and connects late): every "
+         "accepted connection carries the expected metadata and runs the connect callback exactly once.",
     ref="DESIGN.md 5 C10, 3.2", note=LIFE_NOTE, technique=LIFE_TECH)
 CHECKS["C12"] = dict(
     engine="life", category="model_checking",
@@ -186,7 +189,9 @@ CHECKS["C18"] = dict(
          "handler of a program has returned, the tables read through a verif accessor must be empty and no per-call "
          "goroutine (async/correctable loop, cancellation watcher) may be left. Programs cover every call kind x every way "
          "of ending (all replies, quorum before all replies, exhaustion by errors, cancellation with pending handlers, "
-         "stream completion); free workloads add volume.",
+         "stream completion); free workloads add volume; scripted scenarios (a send failing after the sender's health "
+         "check, a context ending during the write, a stream replaced behind the receiver) x 9 call kinds end with a census "
+         "of per-call goroutines and router tables.",
     ref="DESIGN.md 5 C18, 3.0 (Routing), 3.2", note=PROG_NOTE, technique=ROUTE_TECH)
 
 CHECKS["C07"] = dict(
